@@ -67,3 +67,83 @@ func init() {
 		}
 	}})
 }
+
+func init() {
+	lifeO := AlphaOpts{RespKinds: []string{"ok", "bad", "noout"}, CtxOps: []string{"pause", "start", "kill"},
+		Updates: []CtxUpdate{updTotalUp}, Withdraw: []string{"O1:"}}
+	ctlO := AlphaOpts{RespKinds: []string{"ok"}, CtxOps: []string{"pause", "start", "kill"},
+		Updates: []CtxUpdate{updTotalUp, updTotalInf, updTimeout2, updFreq2}}
+	modO := AlphaOpts{RespKinds: []string{"ok", "bad", "noout"}, ModOps: []string{"mpause", "mstart", "mkill"},
+		ModUpdates: []CtxUpdate{{Name: "total3", Total: 3}}}
+	dbm := func(tier string, d, b, m int) (int, int, int) {
+		if tier == "thorough" {
+			return d + 2, b + 1, m + 1
+		}
+		return d, b, m
+	}
+	register(&CheckSpec{Prop: "C06", Runs: func(tier string) []RunSpec {
+		d, b, m := dbm(tier, 8, 5, 2)
+		o := AlphaOpts{RespKinds: []string{"ok", "bad"}, CtxOps: []string{"pause", "start"}, Updates: []CtxUpdate{updCap1, updProvP2},
+			BindOps: []Action{actDisable("a", "P1", "O1"), actEnable("a", "P1", "O1", 0), actUpdate("a", "P2", "O2", 0, "", 2), actUpdate("a", "P1", "O1", 30, "p20", 0)}}
+		return []RunSpec{
+			{Name: "life-eligibility", Sc: scLife(defaultParams(), []Template{tOne, tRep2, tPoor}, o, d, b, m), Oracles: []Oracle{oracleC06{}}},
+			{Name: "life-eligibility-flipped-ids", Sc: flip(scLife(defaultParams(), []Template{tRep2, tLong}, o, d, b, m)), Oracles: []Oracle{oracleC06{}}},
+			{Name: "mod-thresholds", Sc: scMod(defaultParams(), []Template{tMod2, tModCap, tModPoor}, modO, d-1, b, m), Oracles: []Oracle{oracleC06{}}},
+		}
+	}})
+	register(&CheckSpec{Prop: "C07", Runs: func(tier string) []RunSpec {
+		d, b, m := dbm(tier, 8, 5, 2)
+		o := AlphaOpts{RespKinds: []string{"ok", "bad"}, BindOps: []Action{actUpdate("a", "P1", "O1", 0, "p1t", 0), actUpdate("a", "P2", "O2", 0, "p3vv", 0)}}
+		return []RunSpec{
+			{Name: "price-volume", Sc: withFunds(scPrice(paramSet("0.1", "0.001"), "p2v", "p3vv", []Template{tRep2, tLong, tSuper}, o, d, b, m), 30, 5), Oracles: []Oracle{oracleC07{}}, Mon: MonFlags{Vol: true}},
+			{Name: "price-time+subunit", Sc: withFunds(scPrice(paramSet("0.1", "0.001"), "p4t", "p1v", []Template{tRep2, tInf}, o, d, b, m), 30, 5), Oracles: []Oracle{oracleC07{}}, Mon: MonFlags{Vol: true}},
+		}
+	}})
+	register(&CheckSpec{Prop: "C08", Runs: func(tier string) []RunSpec {
+		d, b, m := dbm(tier, 8, 5, 2)
+		o := AlphaOpts{RespKinds: []string{"ok", "bad", "noout"}, RespWrong: true, CtxOps: []string{"pause", "kill"}, Updates: []CtxUpdate{updTimeout2}}
+		return []RunSpec{
+			{Name: "life-timeouts-1-2", Sc: withFunds(scLife(paramSet("0.1", "0.001"), []Template{tOne, tLong}, o, d, b, m), 30, 5), Oracles: []Oracle{oracleC08{}}, Mon: MonFlags{Req: true}},
+			{Name: "life-timeout-3", Sc: withFunds(scLife(paramSet("0.1", "0.001"), []Template{{Name: "t3", Consumer: "C1", Service: "a", Providers: []string{"P1", "P2"}, Cap: 5, Timeout: 3}}, o, d, b, m+1), 30, 5), Oracles: []Oracle{oracleC08{}}, Mon: MonFlags{Req: true}},
+		}
+	}})
+	register(&CheckSpec{Prop: "C09", Runs: func(tier string) []RunSpec {
+		d, b, m := dbm(tier, 8, 5, 2)
+		return []RunSpec{
+			{Name: "life-lifecycle", Sc: scLife(defaultParams(), []Template{tOne, tRep2, tPoor}, ctlO, d, b, m), Oracles: []Oracle{oracleC09{}}},
+			{Name: "mod-lifecycle", Sc: scMod(defaultParams(), []Template{tMod1, tModPoor}, modO, d, b, m), Oracles: []Oracle{oracleC09{}}},
+		}
+	}})
+	register(&CheckSpec{Prop: "C10", Runs: func(tier string) []RunSpec {
+		d, b, m := dbm(tier, 9, 7, 2)
+		return []RunSpec{
+			{Name: "cadence-rep2+inf", Sc: withFunds(scLife(paramSet("0.1", "0.001"), []Template{tRep2, tInf}, ctlO, d, b, m), 40, 5), Oracles: []Oracle{oracleC10{}}, Mon: MonFlags{Ctx: true}},
+			{Name: "cadence-rep1+long+f3", Sc: withFunds(scLife(paramSet("0.1", "0.001"), []Template{tRep1, tLong, tF3}, AlphaOpts{CtxOps: []string{"pause", "start"}, Updates: []CtxUpdate{updTotalUp}}, d, b, m), 40, 5), Oracles: []Oracle{oracleC10{}}, Mon: MonFlags{Ctx: true}},
+			{Name: "frequency-boundaries", Sc: withFunds(scLife(paramSet("0.1", "0.001"), []Template{tHuge, tMax, tBig}, AlphaOpts{CtxOps: []string{"pause", "start"}}, 5, 4, 2), 40, 5), Oracles: []Oracle{oracleC10{}}, Mon: MonFlags{Ctx: true}},
+		}
+	}})
+	register(&CheckSpec{Prop: "C11", Runs: func(tier string) []RunSpec {
+		d, b, m := dbm(tier, 9, 6, 2)
+		return []RunSpec{
+			{Name: "life-events", Sc: withFunds(scLife(paramSet("0.1", "0.001"), []Template{tRep2, tInf, tPoor}, ctlO, d, b, m), 40, 1), Oracles: []Oracle{oracleC11{}}},
+			{Name: "frequency-boundaries", Sc: withFunds(scLife(paramSet("0.1", "0.001"), []Template{tHuge, tMax, tBig}, AlphaOpts{CtxOps: []string{"pause", "start"}}, 5, 4, 2), 40, 5), Oracles: []Oracle{oracleC11{}}},
+		}
+	}})
+	register(&CheckSpec{Prop: "C12", Runs: func(tier string) []RunSpec {
+		d, b, m := dbm(tier, 8, 5, 2)
+		return []RunSpec{
+			{Name: "mod-callbacks", Sc: scMod(defaultParams(), []Template{tMod1, tMod2, tModPoor}, modO, d, b, m), Oracles: []Oracle{oracleC12{}}, Mon: MonFlags{CB: true}},
+			{Name: "mod-callbacks-oneshot+cap", Sc: scMod(defaultParams(), []Template{tModOne, tModCap}, modO, d, b, m+1), Oracles: []Oracle{oracleC12{}}, Mon: MonFlags{CB: true}},
+			{Name: "life-bookkeeping", Sc: scLife(defaultParams(), []Template{tOne, tRep2}, lifeO, d, b, m), Oracles: []Oracle{oracleC12{}}},
+		}
+	}})
+	register(&CheckSpec{Prop: "C16", Runs: func(tier string) []RunSpec {
+		d, b, m := dbm(tier, 8, 6, 2)
+		return []RunSpec{
+			{Name: "life-cleanup", Sc: scLife(defaultParams(), []Template{tOne, tRep2, tPoor}, ctlO, d, b, m), Oracles: []Oracle{oracleC16{}}},
+			{Name: "mod-cleanup", Sc: scMod(defaultParams(), []Template{tMod1, tModCap}, modO, d, b, m), Oracles: []Oracle{oracleC16{}}},
+		}
+	}})
+}
+
+func flip(sc *Scenario) *Scenario { sc.FlipIDs = true; return sc }
